@@ -2,7 +2,9 @@
 
 proof  : lean/Pyunicorn/Properties/C14.lean (kernel loops = chord / horizontal
          criterion, missing samples, affine invariance, time reversal,
-         retarded + advanced = degree, clustering counters)
+         retarded + advanced = degree, clustering counters; round 2: the matrix
+         as state, the float32 kernel under order faithfulness, closeness and
+         boundary-corrected measures under reversal, path lengths = least walks)
 tie    : exact correspondence of the Lean model (lean/Pyunicorn/Model/Visibility.lean)
          with the compiled kernels at the kernel boundary and with
          `VisibilityGraph` at the object level, on data whose float32 slope
@@ -567,11 +569,20 @@ def run(ctx):
                 "exact series (plateaus, monotone runs, collinear segments, parabolas, spikes, "
                 "dyadic values; uniform and non-uniform dyadic timings), masks independent of NaN, "
                 "N smaller / larger than the arrays, tied and decreasing timings (error branch); "
-                "object level: VisibilityGraph adjacency, retarded/advanced degree and clustering; "
+                "extreme power-of-two rescalings, degenerate (constant / alternating / spike / all-missing) "
+                "series; the float32 model on these and on generic float32 data (near ties, 2^±60 "
+                "dynamic range, NaN); object level: VisibilityGraph adjacency, retarded/advanced degree, "
+                "clustering, closeness, boundary-corrected degree/closeness for caller arrays in float64 / "
+                "float32 / int64 / strided / negative-stride form and arrays held by another object, "
+                "multi-step histories on one object, wrappers, silence_level=0; "
                 "distinct = distinct (request); non-trivial = at least 3 samples, not all equal")
     ctx.trusted = common.DEFAULT_TRUSTED + [
-        "float32 rounding of the slope quotients is not modelled: the harness checks for every "
-        "compared case that the float32 quotients are ordered exactly like the rational ones"]
+        "float32: kernelNR rndF32 (differences and quotient rounded to binary32, RNE, no overflow) is "
+        "compared exactly with the compiled natural kernels on generic float32 data; theorem "
+        "nvg_float32_eq_exact reduces it to the exact model under `Faithful`, which the Lean driver "
+        "decides for the series of the exact correspondence (f32_exact selects them independently)",
+        "Network.path_lengths (igraph) is modelled by its specification pathLen (least number of links, "
+        "theorem path_lengths_are_least_walk_lengths); nsi_betweenness-based measures are not modelled"]
     ctx.proofs()
 
     # ---------------- the series pool ---------------------------------------
@@ -900,7 +911,7 @@ def run(ctx):
     def fr32(a):
         return [None if np.isnan(v) else Fr(float(v)) for v in a]
 
-    for c in range(150 if quick else 2500):
+    for c in range(400 if quick else 4000):
         n = rng.randrange(3, 14 if rng.random() < 0.8 else 30)
         xs = nprng.rand(n).astype(np.float32)
         kind = rng.choice(["uniform", "eighths", "scaled", "ramp"])
